@@ -75,23 +75,48 @@ func cutPart(r rig.Rec, c int64) string {
 	}
 }
 
-func buildTape(env *Env, job *E2Job) (st *rig.Stack, m *model.FS, err error) {
+// callState: what the running instance showed when a call of the history had returned, and how long the tape was then.
+type callState struct {
+	call    string
+	tapeLen int64
+	tree    []rig.Entry
+}
+
+func buildTape(env *Env, job *E2Job) (st *rig.Stack, m *model.FS, states []callState, err error) {
 	st, err = rig.NewStack(env.TempDir(), job.Cfg, env.Keys)
 	if err != nil {
-		return nil, nil, err
+		return nil, nil, nil, err
 	}
 	if err := st.Init(); err != nil {
-		return nil, nil, fmt.Errorf("Initialize: %w", err)
+		return nil, nil, nil, fmt.Errorf("Initialize: %w", err)
 	}
 	m = model.New(os.Getuid(), os.Getgid(), 0o777)
+	snap := func(call string) {
+		// only when no handle is open: a walk reads every file, and reading next to a partly used handle is D11's subject
+		if len(st.Handles) > 0 || job.Prop != "C06" {
+			return
+		}
+		fi, err := os.Stat(st.Drive)
+		if err != nil {
+			return
+		}
+		var tree []rig.Entry
+		if _, pan := Guard(func() error { tree = rig.Walk(st.AFS, "/"); return nil }); pan != "" {
+			return
+		}
+		vsync.Quiesce()
+		states = append(states, callState{call: call, tapeLen: fi.Size(), tree: tree})
+	}
+	snap("Initialize")
 	for _, o := range job.Hist {
 		_, _ = Guard(func() error { return ops.ExecImpl(st, o) })
 		vsync.Quiesce()
-		if job.Level != "raw" {
+		if job.Level != "raw" && !strings.HasPrefix(o.K, "h") {
 			ops.ExecModel(m, o)
 		}
+		snap(o.String())
 	}
-	return st, m, nil
+	return st, m, states, nil
 }
 
 type rebuilt struct {
@@ -140,7 +165,7 @@ func RunE2(env *Env, job *E2Job) *E2Res {
 	}
 	distinct := map[string]bool{}
 	info := RunManaged(ph, func() {
-		st, _, err := buildTape(env, job)
+		st, _, states, err := buildTape(env, job)
 		if err != nil {
 			res.Harness = err.Error()
 			return
@@ -276,6 +301,20 @@ func RunE2(env *Env, job *E2Job) *E2Res {
 				}
 				if len(bad) > 0 {
 					viol(fmt.Sprintf("C06|collateral|torn=%s|%s", tornDesc, strings.Join(bad, ",")), where+"\nentries other than the torn one differ from the state after the last complete record:\n  "+strings.Join(badDetail, "\n  "))
+				}
+				// a cut at the point the tape had reached when a call returned tears nothing: the rebuild must show what the
+				// running instance showed at that moment (entries, attributes, contents)
+				if torn == nil {
+					for i := len(states) - 1; i >= 0; i-- {
+						if states[i].tapeLen != c {
+							continue
+						}
+						if shape, detail := diffTrees(got.tree, states[i].tree, true, func(string) string { return "entry" }); len(shape) > 0 {
+							sort.Strings(shape)
+							viol(fmt.Sprintf("C06|complete-prefix-differs-from-the-state-when-the-call-returned|%s", strings.Join(uniqStrings(shape), ",")), where+fmt.Sprintf("\nthe tape had exactly this length when %q returned; rebuilt from it vs what the running instance showed then:\n  %s", states[i].call, strings.Join(detail, "\n  ")))
+						}
+						break
+					}
 				}
 				// the torn entry: an error, or exactly the old or the completely written content - never other bytes
 				for p := range tornNames {
@@ -546,5 +585,17 @@ func cutSet(policy string, n int64, scan rig.ScanResult, writes []int64) []int64
 		out = append(out, c)
 	}
 	sort.Slice(out, func(i, j int) bool { return out[i] < out[j] })
+	return out
+}
+
+func uniqStrings(in []string) []string {
+	out := []string{}
+	seen := map[string]bool{}
+	for _, s := range in {
+		if !seen[s] {
+			seen[s] = true
+			out = append(out, s)
+		}
+	}
 	return out
 }
